@@ -329,6 +329,13 @@ static void body(Ctx& C)
          }
          C.count("rounds_with_sharing_check");
       } else C.count("rounds_destroying_while_others_construct");
+      if (round < 3) {
+         std::string as; for (int t = 0; t < T; ++t) as += (t ? "," : "") + std::to_string(assign[std::size_t(t)]);
+         long long ticks = 0, over = 0; for (int t = 0; t < T; ++t) for (auto& [tk, inside] : lives[std::size_t(t)].ticks) { ++ticks; if (inside >= 2) ++over; }
+         C.sample(J().s("kind", "round").n("threads", T).n("distinct_lives", distinct_lives).s("life_of_each_thread", as).n("first_life_seed", (long long)specs[0].seed).n("first_life_kind", specs[0].kind)
+                  .n("first_life_program_steps", (long long)specs[0].prog->steps.size()).n("deepest_block_nest_printed", specs[0].nest).b("reference_traces_before_threads", reference_first).b("lexicons_kept_alive_for_sharing_check", keep_alive)
+                  .n("api_ticks", ticks).n("api_ticks_with_two_or_more_threads_inside", over).n("trace_bytes_of_first_life", (long long)ref[0].size()).str(), 3);
+      }
       C.count("rounds"); C.count(std::string("rounds_with_threads:") + std::to_string(T));
       lives.clear();
    }
@@ -336,7 +343,6 @@ static void body(Ctx& C)
    C.count("api_ticks", total_ticks); C.count("api_ticks_with_two_or_more_threads_inside", overlap_ticks); C.count("thread_alternations_in_ticket_order", alternations);
    for (auto k : { "rounds", "lives_on_threads", "api_batches", "printed_bytes", "shared_addresses_checked", "rounds_with_sharing_check", "rounds_destroying_while_others_construct", "trace_bytes_compared", "rounds_reference_before_threads", "rounds_threads_before_reference" }) C.need(k);
    C.need("api_ticks_with_two_or_more_threads_inside", 100); C.need("thread_alternations_in_ticket_order", 100);
-   C.sample(J().s("kind", "round").s("what", "T threads x (reserved words + constants + all-factories sweep + generated program printed twice + table growth), half of the threads on the same life").str());
 }
 
 int main(int argc, char** argv) { return guarded_main(argc, argv, body); }
